@@ -333,7 +333,7 @@ class ndarray(object):
     def swapaxes(self, a1, a2):
         return ndarray(self.a.swapaxes(a1, a2), self.dtype)
 
-    def tobytes(self):
+    def tobytes(self, order='C'):
         return BytesToken(self.copy(), self.dtype)
 
     @property
